@@ -338,6 +338,10 @@ def phi_lowering(ctx, rid):
         blk = norm(ch[0].func.value)
         ok = norm(jm[0].args[0]) == succ and norm(ri[0].func.value) == succ and norm(ri[0].args[0]) == blk and norm(ri[0].args[1]) == "[%s]" % edge and norm(ab[0].args[0]) == edge
     ctx.ob(rid, site, "the edge block jumps to the successor, the predecessor is retargeted to it and the successor's phis take their value from it", ok, construct="edge-block-wiring")
+    from .c02 import iterates_distinct
+    sl = sorted([l for l in ast.walk(se) if isinstance(l, ast.For) and ch and any(x is ch[0] for x in ast.walk(l))], key=lambda l: l.lineno)   # innermost last
+    okd, detd = iterates_distinct(se, sl[-1].iter) if sl else (False, "")
+    ctx.ob(rid, site, "every DISTINCT successor is considered once (Block.successors lists S twice for `cjmp c ? S : S`; splitting that edge twice fails in replace_incoming)", okd, construct="distinct-successors", detail="iterates " + detd)
     cont = [n for n in ast.walk(se) if isinstance(n, ast.If) and any(isinstance(b, ast.Continue) for b in n.body)]
     tests = [" ".join(norm(n.test).split()) for n in cont]
     ok = any("< 2" in t or "<= 1" in t for t in tests)
